@@ -41,6 +41,20 @@ PROPERTY_MODULES = {
 }
 
 
+# bounded native stand-ins for the parts of a property that are NOT under contract (listed as unverified in DESIGN.md):
+# differential runs of the real code against clingo on the small corpus of native/corpus.py.  Labelled bounded in the
+# evidence and never counted among the discharged obligations; a *found* failing input is reported as a VIOLATION.
+STANDINS = {
+    "C05": [{"mirror": "corpus", "trait": "none"}],
+    "C08": [{"mirror": "corpus", "trait": "cleanup"}],
+    "C11": [{"mirror": "corpus", "trait": "symmetry"}],
+    "C12": [{"mirror": "corpus", "trait": "minmax_chains"}],
+    "C13": [{"mirror": "corpus", "trait": "sum_chains"}],
+    "C16": [{"mirror": "corpus", "trait": "projection"}],
+    "C19": [{"mirror": "verify_enable_bounded"}],
+}
+
+
 def reflect():
     os.makedirs(os.path.join(HERE, "build"), exist_ok=True)
     out = os.path.join(HERE, "build", "schema.json")
@@ -197,9 +211,22 @@ def run(prop, args, seed, t0):
                 violations.append(o)
             else:
                 undecided.append(f"obligation {o['name']}: {o['verdict']}")
+    # ---- bounded stand-ins for the unverified remainder of the property --------------------------
+    if not args.unit:
+        for si in STANDINS.get(prop, []):
+            res = native("replay_native.py", {"mirror": si["mirror"], "model": {}, "extra": dict(si, bounded=True)}, timeout=600)
+            bounded_runs.append({"standin": si, "result": res})
+            if res.get("confirmed") is True:
+                os.makedirs(os.path.join(HERE, "replay", prop), exist_ok=True)
+                fname = os.path.join(HERE, "replay", prop, _safe("standin." + si["mirror"] + "." + si.get("trait", "")) + ".json")
+                with open(fname, "w", encoding="utf8") as f:
+                    json.dump({"property": prop, "bounded_standin": si, "native_request": {"mirror": si["mirror"], "model": {}, "extra": dict(si, bounded=True)}, "native_result": res}, f, indent=1, default=str)
+                early_violation_lines.append(f"VIOLATION property={prop} replay={fname}")
+            elif res.get("confirmed") is None:
+                problems.append(f"bounded stand-in {si} failed to run: {str(res)[:300]}")
     # ---- replay failed top-level obligations ------------------------------------------------
     os.makedirs(os.path.join(HERE, "replay", prop), exist_ok=True)
-    violation_lines = list(early_violation_lines)
+    violation_lines = []
     confirmed_families = set()
     for o in violations:
         if family(o["name"]) in confirmed_families:
@@ -242,6 +269,7 @@ def run(prop, args, seed, t0):
             undecided.append(f"obligation {o['name']}: solver unknown; no candidate counter-model was confirmed natively")
         else:
             undecided.append(f"obligation {o['name']} failed, has no native replay and is not in the baseline list")
+    violation_lines = violation_lines + [l for l in early_violation_lines if l not in violation_lines]
     # ---- known findings: replay witnesses -------------------------------------------------------
     kf_lines = []
     kf_reproduced = []
@@ -262,7 +290,7 @@ def run(prop, args, seed, t0):
     wall = time.time() - t0
     # ---- evidence ---------------------------------------------------------------------------
     if not args.no_evidence and not args.unit:
-        write_evidence(prop, args.tier, seed, results, per_obl, n_obl, n_dis, n_cover, violation_lines, undecided, problems, kf_reproduced, wall)
+        write_evidence(prop, args.tier, seed, results, per_obl, n_obl, n_dis, n_cover, violation_lines, undecided, problems, kf_reproduced, wall, bounded_runs)
     if args.update_baseline and not violation_lines and not problems:
         fams = sorted(load_baseline() | {family(o["name"]) for o in per_obl if o.get("verdict") == "discharged"})
         with open(os.path.join(HERE, "baseline_obligations.json"), "w", encoding="utf8") as f:
@@ -297,7 +325,7 @@ def _safe(s):
     return "".join(ch if ch.isalnum() or ch in "._-" else "_" for ch in s)[:150]
 
 
-def write_evidence(prop, tier, seed, results, per_obl, n_obl, n_dis, n_cover, violation_lines, undecided, problems, kf, wall):
+def write_evidence(prop, tier, seed, results, per_obl, n_obl, n_dis, n_cover, violation_lines, undecided, problems, kf, wall, bounded_runs=()):
     trusted = []
     functions = {}
     notes = []
@@ -349,6 +377,10 @@ def write_evidence(prop, tier, seed, results, per_obl, n_obl, n_dis, n_cover, vi
             "samples": [s for s in samples[:3]] or ["(no obligation generated)"],
             "engine_notes": notes[:40],
             "known_findings_reproduced": kf,
+            "bounded_standins": [
+                {"what": b.get("standin") or {"unit": b.get("unit"), "mirror": b.get("mirror")}, "label": "bounded (not a proof, not counted in discharged)", "bound": (b.get("result") or {}).get("bound"), "found_failing_input": (b.get("result") or {}).get("confirmed")}
+                for b in bounded_runs
+            ],
             "undecided": [u if isinstance(u, str) else u["name"] for u in undecided],
             "checker_problems": problems,
             "explanation": "every obligation is generated by symbolic execution of the current source of the listed functions and discharged by an SMT solver for all inputs (no bound)",
